@@ -129,10 +129,27 @@ def run(ctx):
     ctx.model("ImagerGeometry with the truncating constructor (pre-repair design; expected to fail SquarePixels)", r, expect_violation="SquarePixels")
     from .. import tlaps
     tlaps.attach(ctx, "ImagerSetter", "for ALL integers: a range setter (ceil to whole pixels, symmetric padding) satisfies resolution*ps = width, covers the request, excess < one pixel")
+    extra_params_table(ctx)
     n = 700 if quick else 8000
     hists = [gen_history(ctx.rng, 4 if i % 3 else 10) for i in range(n)]
     embs = [TICKS[i % len(TICKS)] for i in range(n)]
     validate(ctx, hists, embs, "V")
+
+
+def extra_params_table(ctx):
+    """growth beyond the listed properties: the constructor's parameter validation as a decision table generated by TLC"""
+    import json, os, tempfile
+    dump = os.path.join(tempfile.mkdtemp(prefix="ipar_"), "dump.json")
+    r = tlc.run_tlc("ImagerParams", workers=1, env={"DUMP_FILE": dump}, init="Init", nxt="Next", invariants=["AllValidAccepted"], heap="2g")
+    ctx.model("ImagerParams decision table (beyond the listed properties)", r)
+    if not os.path.exists(dump):
+        return
+    table = json.load(open(dump)); os.remove(dump)
+    res, _ = run_driver_parallel("imager_params.py", [dict(args=t["args"]) for t in table], nproc=8)
+    bad = [(t, x) for t, x in zip(table, res) if not (x.get("outcome") == "ok" if t["outcome"] == "ok" else str(x.get("outcome", "")).startswith(t["outcome"]))]
+    ctx.extra["beyond_properties_imager_parameter_table"] = dict(cases=len(table), agree=len(table) - len(bad), examples_of_disagreement=[dict(args=t["args"], spec=t["outcome"], code=x.get("outcome", x)) for t, x in bad[:3]])
+    if bad:
+        ctx.notes.append("parameter-validation table: %d of %d combinations differ from the specification (not one of the listed properties; reported as a note)" % (len(bad), len(table)))
 
 
 def replay(ctx, rec):
